@@ -75,10 +75,7 @@ def ryuLine (toks : Array String) : List Msg :=
         let mirrorMsgs : List Msg :=
           if (mm, me, mx) != (m, e, x) then
             [{ cls := "MIRROR-MISMATCH", op := "ryudec", kind := "mirror", detail := s!"float {b} (mant {mant} exp {exp}): implementation {m}e{e} exactInt={x}, mirror {mm}e{me} exactInt={mx}" }]
-          else if !mx && !QF.Props.C16Core.floorsHold mant exp then
-            -- the hypothesis of QF.Props.C16Core.ryu_shortest_partial (the three mulShift64 results are exact floors), decided for this float
-            [{ cls := "MIRROR-MISMATCH", op := "ryudec", kind := "hypothesis", detail := s!"float {b} (mant {mant} exp {exp}): the hypothesis of ryu_shortest_partial does not hold: a mulShift64 result of step 3 is not the exact floor" }]
-          else []
+          else []   -- (the exact-floor hypothesis of ryu_shortest_partial is no longer checked per float: QF.Props.C16Core.ryu_shortest is unconditional)
         if specMsgs.isEmpty && mirrorMsgs.isEmpty then [{ cls := "OK", op := "ryudec", kind := "", detail := "" }]
         else specMsgs ++ mirrorMsgs
   | _ => []
